@@ -378,9 +378,37 @@ pub struct StepRec {
     pub obs: Obs,
 }
 
+/// identifiers and names of the transaction a world plays (defaults: ENT_S, ENT_R, SEQ, SRC_NAME, DST_NAME)
+#[derive(Clone, Debug)]
+pub struct WorldIds {
+    pub src_ent: VariableID,
+    pub dst_ent: VariableID,
+    pub seq: VariableID,
+    pub src_name: String,
+    pub dst_name: String,
+}
+impl Default for WorldIds {
+    fn default() -> Self {
+        WorldIds { src_ent: VariableID::from(ENT_S), dst_ent: VariableID::from(ENT_R), seq: VariableID::from(SEQ), src_name: SRC_NAME.into(), dst_name: DST_NAME.into() }
+    }
+}
+
+/// events applied to a twin world from outside (daemon_world.rs): the clock and the links
+/// belong to the caller
+#[derive(Clone, Debug)]
+pub enum ExtEv {
+    Send(Side),
+    Deliver(Side, PDU),
+    Timeout(Side),
+    User(Side, UserOp),
+}
+
 pub struct World {
     pub scn: Arc<Scenario>,
     pub src: Vec<u8>,
+    pub ids: WorldIds,
+    /// twin mode: emitted PDUs are not queued on the links, the clock is not advanced
+    pub external: bool,
     dir: PathBuf,
     fs_s: Arc<NativeFileStore>,
     fs_r: Arc<NativeFileStore>,
@@ -474,11 +502,18 @@ impl World {
     /// must be called inside `on_rt`
     pub fn new(scn: Arc<Scenario>) -> World {
         let dir = TDIR.with(|d| d.clone());
+        Self::new_in(scn, dir, WorldIds::default(), false)
+    }
+
+    /// a world in its own directory with its own identifiers (must be called inside a runtime)
+    pub fn new_in(scn: Arc<Scenario>, dir: PathBuf, ids: WorldIds, external: bool) -> World {
+        let _ = std::fs::create_dir_all(dir.join("s"));
+        let _ = std::fs::create_dir_all(dir.join("r"));
         clear_dir(&dir.join("s"));
         clear_dir(&dir.join("r"));
         let src = scn.source_bytes();
         if scn.file_size.is_some() {
-            std::fs::write(dir.join("s").join(SRC_NAME), &src).unwrap();
+            std::fs::write(dir.join("s").join(&ids.src_name), &src).unwrap();
         }
         for (n, c) in &scn.pre_files {
             let p = dir.join("r").join(n);
@@ -499,6 +534,8 @@ impl World {
         let (r_out_tx, r_out_rx) = channel(1);
         let mut w = World {
             src,
+            ids,
+            external,
             dir,
             fs_s,
             fs_r,
@@ -539,10 +576,10 @@ impl World {
 
     fn config(&self, fsf: FileSizeFlag, crc: CRCFlag, mode: TransmissionMode, smf: SegmentedData) -> TransactionConfig {
         TransactionConfig {
-            source_entity_id: VariableID::from(ENT_S),
-            destination_entity_id: VariableID::from(ENT_R),
+            source_entity_id: self.ids.src_ent,
+            destination_entity_id: self.ids.dst_ent,
             transmission_mode: mode,
-            sequence_number: VariableID::from(SEQ),
+            sequence_number: self.ids.seq,
             file_size_flag: fsf,
             fault_handler_override: self.scn.handler_map(),
             file_size_segment: self.scn.seg,
@@ -561,8 +598,8 @@ impl World {
         let crc = if scn.crc { CRCFlag::Present } else { CRCFlag::NotPresent };
         let cfg = self.config(FileSizeFlag::Small, crc, scn.mode(), SegmentedData::NotPresent);
         let metadata = Metadata {
-            source_filename: if scn.file_size.is_some() { SRC_NAME.into() } else { "".into() },
-            destination_filename: if scn.file_size.is_some() { DST_NAME.into() } else { "".into() },
+            source_filename: if scn.file_size.is_some() { self.ids.src_name.as_str().into() } else { "".into() },
+            destination_filename: if scn.file_size.is_some() { self.ids.dst_name.as_str().into() } else { "".into() },
             file_size: scn.file_size.unwrap_or(0),
             filestore_requests: scn.fs_requests(),
             message_to_user: vec![],
@@ -872,7 +909,7 @@ impl World {
                 LinkId::SR => self.sent_sr.insert(bytes.clone()),
                 LinkId::RS => self.sent_rs.insert(bytes.clone()),
             };
-            if !self.black(l) && self.target_open(l.to()) {
+            if !self.external && !self.black(l) && self.target_open(l.to()) {
                 self.link(l).push_back(bytes);
             }
             rec.out.push((side, pdu));
@@ -1161,6 +1198,98 @@ impl World {
                     Side::R => LinkId::SR,
                 };
                 self.deliver_bytes(l, &bytes, &mut rec);
+            }
+        }
+        self.drain(&mut rec).await;
+        rec.obs = self.observe();
+        rec
+    }
+
+    /// collect the indications raised so far (after the caller has yielded to the runtime)
+    pub fn drain_now(&mut self) -> Vec<Indication> {
+        let mut v = vec![];
+        while let Ok(i) = self.s_ind_rx.try_recv() {
+            v.push(i);
+        }
+        while let Ok(i) = self.r_ind_rx.try_recv() {
+            v.push(i);
+        }
+        v
+    }
+
+    /// twin mode: apply an event observed in the real system (no link, no clock handling)
+    pub async fn apply_ext(&mut self, e: &ExtEv) -> StepRec {
+        let pseudo = match e {
+            ExtEv::Send(s) => Ev::Send(*s),
+            ExtEv::Deliver(s, _) => Ev::Deliver(if *s == Side::R { LinkId::SR } else { LinkId::RS }),
+            ExtEv::Timeout(s) => Ev::Timeout(*s, false),
+            ExtEv::User(s, op) => Ev::User(*s, *op),
+        };
+        let t_before = tokio::time::Instant::now().duration_since(self.t0);
+        let mut rec = StepRec { idx: self.steps, ev: pseudo, t_before, out: vec![], delivered: None, inds: vec![], err: None, panic: None, codec_mismatch: None, obs: self.observe() };
+        self.steps += 1;
+        match e {
+            ExtEv::Send(side) => {
+                let res = match side {
+                    Side::S => {
+                        let permit = self.s_out_tx.try_reserve().expect("slot free");
+                        let t = self.s.as_mut().unwrap();
+                        catch(|| t.verif_send_pdu(permit))
+                    }
+                    Side::R => {
+                        let permit = self.r_out_tx.try_reserve().expect("slot free");
+                        let t = self.r.as_mut().unwrap();
+                        catch(|| t.verif_send_pdu(permit))
+                    }
+                };
+                self.collect_out(*side, &mut rec);
+                self.after_handler(*side, res, &mut rec);
+            }
+            ExtEv::Deliver(side, pdu) => self.deliver_pdu(*side, pdu.clone(), &mut rec),
+            ExtEv::Timeout(side) => {
+                let res = match side {
+                    Side::S => {
+                        let t = self.s.as_mut().unwrap();
+                        catch(|| t.handle_timeout())
+                    }
+                    Side::R => {
+                        let t = self.r.as_mut().unwrap();
+                        catch(|| t.handle_timeout())
+                    }
+                };
+                self.after_handler(*side, res, &mut rec);
+            }
+            ExtEv::User(side, op) => {
+                let res: Result<Result<(), TransactionError>, String> = match side {
+                    Side::S => {
+                        let t = self.s.as_mut().unwrap();
+                        catch(|| match op {
+                            UserOp::Cancel => t.cancel(),
+                            UserOp::Suspend => t.suspend(),
+                            UserOp::Resume => t.resume(),
+                            UserOp::Report => t.send_report(None),
+                            UserOp::PromptNak => {
+                                t.verif_prepare_prompt(NakOrKeepAlive::Nak);
+                                Ok(())
+                            }
+                            UserOp::PromptKeepAlive => {
+                                t.verif_prepare_prompt(NakOrKeepAlive::KeepAlive);
+                                Ok(())
+                            }
+                        })
+                    }
+                    Side::R => {
+                        let t = self.r.as_mut().unwrap();
+                        catch(|| match op {
+                            UserOp::Cancel => t.cancel(),
+                            UserOp::Suspend => t.suspend(),
+                            UserOp::Resume => t.resume(),
+                            UserOp::Report => t.send_report(None),
+                            _ => Ok(()),
+                        })
+                    }
+                };
+                self.after_handler(*side, res, &mut rec);
             }
         }
         self.drain(&mut rec).await;
